@@ -58,7 +58,7 @@ type world struct {
 	effs   [][]effect
 	cmds   []string
 	// interesting record positions (indices into recs)
-	marks   []int
+	marks    []int
 	hasReadd bool // some AccountsAdd re-added a previously known account
 }
 
